@@ -377,6 +377,12 @@ class Ctx:
         t0 = time.time()
         if z3.is_true(t):
             ob.status, ob.backend = "proved", "simplify"
+        elif getattr(self, "defer_obligations", False):
+            # Level 2 summaries: the obligation is decided later, once per abstract pre-state, against pc[:pc_len]
+            ob.status, ob.term, ob.pc_len = "deferred", t, len(self.pc)
+            self.obligs.append(ob)
+            self.assume(t)
+            return ob
         else:
             self.solver.push()
             self.solver.add(z3.Not(t))
